@@ -13,9 +13,15 @@ import (
 func callNames(c *ssa.CallCommon) []string {
 	var out []string
 	add := func(s string) {
-		if s != "" {
-			out = append(out, s)
+		if s == "" {
+			return
 		}
+		for _, x := range out {
+			if x == s {
+				return
+			}
+		}
+		out = append(out, s)
 	}
 	if c.IsInvoke() {
 		tn := typeShort(c.Value.Type())
